@@ -138,7 +138,7 @@ def GCtx.epi (G : GCtx) (pi : PInfo) : List Dir :=
 def GCtx.ctxOf (G : GCtx) (pi : PInfo) : Xcmp.Ctx :=
   { tbl := G.cg.tbl, scope := pi.p.name, frame := pi.idx, exitLabel := G.xl pi }
 
-def located (sym : Symbol) : Bool := sym.type = .var || (sym.type = .val && !sym.isValDecl)
+def located (sym : Symbol) : Bool := sym.type = .var || sym.type = .array || (sym.type = .val && !sym.isValDecl)
 
 /-- Where the name `n`, seen from procedure `pi` running with stack pointer `sp`, lives: the word
     of its label (globals), or `sp` plus a constant (formals and locals). -/
